@@ -69,6 +69,20 @@ func hasIntegralFloatOrBigUint(v ref.Val) bool {
 
 // sortOMaps: ordered-map structs come back in the codec's key order.
 func sortOMaps(typeName string, v ref.Val, less func(a, b string) bool) ref.Val {
+	if typeName == "UintBag" {
+		o := ref.Map()
+		for _, e := range v.M {
+			if e.K == "M" {
+				m := ref.Map()
+				m.M = append(m.M, e.V.M...)
+				sort.SliceStable(m.M, func(i, j int) bool { return less(m.M[i].K, m.M[j].K) })
+				o.M = append(o.M, ref.Entry{K: e.K, V: m})
+			} else {
+				o.M = append(o.M, e)
+			}
+		}
+		return o
+	}
 	if typeName == "Deep" {
 		o := ref.Map()
 		for _, e := range v.M {
